@@ -1,12 +1,12 @@
 CONSTANTS Urls <- UrlsC
           Texts <- TextsC
           Cfgs <- CfgsC
-          ConfigRebuilds = TRUE
-          MaxMsgs = 3
-          MaxInFlight = 2
+          ConfigRebuilds = FALSE
+          MaxMsgs = 4
+          MaxInFlight = 1
           VersionGuard = FALSE
           RefreshFromMemory = TRUE
 INIT LInit
 NEXT LNext
-INVARIANTS LastWord
+INVARIANTS LastWordUnlessOverlapped
 CHECK_DEADLOCK FALSE
